@@ -14,7 +14,7 @@ import (
 func init() { register("C02", checkC02) }
 
 func checkC02(c *an.Ctx) {
-	c.Rule("C02.1", "gate table, cancel column (E2): rows Canceled and (Error∧¬allow_failure) write Canceled on the waiting stage; every other row writes nothing")
+	c.Rule("C02.1", "gate table, cancel column (E2): rows Canceled and (Error∧¬allow_failure) write Canceled on the waiting stage; every other row writes nothing; the gate looks at all dependencies on every call")
 	c.Rule("C02.2", "stage-body table (E2): err=nil → final Done, graph error untouched; err≠nil∧allow_failure → final Done, graph error untouched; err≠nil∧¬allow_failure → final Error, graph error := err, no Done")
 	c.Rule("C02.3", "condition table (E2) in the scheduling loop: condition error → Error + Scheduler.Cancel; condition false → Skipped only; nothing else writes Skipped")
 	c.Rule("C02.4", "error report (E4/E7): ExecutionGraph.error has one writer; LastError returns it; Schedule returns LastError() on every exit, read after a synchronous wait for the stage goroutines; the runner caller returns the nested Schedule's result unchanged")
